@@ -265,9 +265,9 @@ def c01(prop, tier, seed, t0):
                                         "the recorded trace must be complete and every transmitted frame well-formed and within the solicited bounds (Check=C02)"])
 
 
-def with_g1(scs, seed, tier, quick_limit):
+def with_g1(scs, seed, tier, quick_limit, thorough_limit=40000):
     import g1
-    g, info = g1.transition_scenarios(seed, limit=quick_limit if tier == "quick" else 40000, scope=1)
+    g, info = g1.transition_scenarios(seed, limit=quick_limit if tier == "quick" else thorough_limit, scope=1)
     w = g1.small_alphabet_walks(seed, 150 if tier == "quick" else 3000)
     info["small_alphabet_walks"] = len(w)
     return scs + g + w, {"g1_transition_cover": info}
@@ -329,7 +329,7 @@ def c03(prop, tier, seed, t0):
 
 
 def c05(prop, tier, seed, t0):
-    scs, cov = with_g1(campaigns.campaign_c05(seed, tier), seed, tier, 1200)
+    scs, cov = with_g1(campaigns.campaign_c05(seed, tier), seed, tier, 1200, thorough_limit=None)   # thorough: every transition
     return responder_check(prop, tier, seed, t0, {"C05"}, scs, mc=[MC_GENERAL, MC_IMPL], extra_cov=cov)
 
 
@@ -364,8 +364,9 @@ def c06(prop, tier, seed, t0):
 
 
 def c07(prop, tier, seed, t0):
-    scs, cov = with_g1(campaigns.campaign_c07(seed, tier), seed, tier, 1200)
-    return responder_check(prop, tier, seed, t0, {"C07"}, scs, mc=[MC_GENERAL, MC_IMPL], extra_cov=cov)
+    scs, cov = with_g1(campaigns.campaign_c07(seed, tier), seed, tier, 1200, thorough_limit=None)   # thorough: every transition
+    mc = [MC_GENERAL, MC_IMPL] + ([("ResponderLive.tla", "ResponderLive.cfg")] if tier == "thorough" else [])
+    return responder_check(prop, tier, seed, t0, {"C07"}, scs, mc=mc, extra_cov=cov)
 
 
 def c08(prop, tier, seed, t0):
